@@ -14,6 +14,9 @@ sys.path.insert(0, os.path.dirname(os.path.abspath(__file__)))
 import ajlib
 from ajlib import ROOT
 import props
+import fingerprint
+
+DRIFT_ROUNDS = 3
 
 
 def load_known():
@@ -185,6 +188,7 @@ def main():
     total = 0
     features = set()
     samples = []
+    drifted = fingerprint.drift()
     disagreements = []
     per_suite = {}
     for s in suites:
@@ -208,6 +212,18 @@ def main():
             continue
         exe = exes[json.dumps(s.cfg, sort_keys=True)]
         cases = s.generate(rng, tier)
+        if drifted and tier == "quick" and not a.replay:
+            # the source moved since the models were validated against it: explore more (further rounds of the same generator, other random draws)
+            seen = {c.line for c in cases} if not getattr(s, "group_starts", None) else None
+            for extra in range(DRIFT_ROUNDS):
+                more = s.generate(random.Random(rng.getrandbits(48)), tier)
+                if seen is None:
+                    cases += more
+                else:
+                    for c in more:
+                        if c.line not in seen:
+                            seen.add(c.line)
+                            cases.append(c)
         if a.replay:
             cases = []
         lines = [c.line for c in cases]
@@ -260,6 +276,9 @@ def main():
             for j in (0, len(cases) // 2, len(cases) - 1):
                 samples.append({"suite": s.name, "line": cases[j].line[:300], "implementation": (ho[j] or "")[:300]})
         per_suite[s.name + ":" + json.dumps(s.cfg, sort_keys=True)] = {"cases": len(cases), "disagreements": nd, "oracle_failures": nf}
+    cov["source_drift"] = {"files": drifted[:40], "extra_rounds": DRIFT_ROUNDS if (drifted and tier == "quick") else 0,
+                           "meaning": "files under /repo/src whose normalized text differs from the tree the models were last validated against (source_baseline.json); "
+                                      "not a violation by itself - the quick tier then explores several further rounds of every suite"}
     cov["evaluations"] = total
     cov["distinct_nontrivial"] = len(features)
     cov["rule"] = P.get("rule", "cases are generated per suite (see tools/suites.py); a case is non-trivial when the suite's feature() returns a key, distinct = distinct keys")
